@@ -22,10 +22,19 @@ perfetto = []
 snapshot = []
 EOT
 printf '[source.crates-io]\nreplace-with = "vendored"\n[source.vendored]\ndirectory = "/verif/vendor"\n' > $D/.cargo/config.toml
-cp "$DEMO" $D/tests/demo.rs
+export REPO_ROOT="$ROOT"
 set +e
-cd $D && CARGO_TARGET_DIR=$D/target cargo test --offline --test demo > $D/log 2>&1
-RC=$?
+if grep -q "fn main" "$DEMO" && ! grep -q "#\[test\]" "$DEMO"; then
+  # a demo written as a program: build it as a binary of the scratch package
+  cp "$DEMO" $D/demo_main.rs
+  printf '[[bin]]\nname = "demo"\npath = "demo_main.rs"\n' >> $D/Cargo.toml
+  cd $D && CARGO_TARGET_DIR=$D/target cargo run --offline --bin demo > $D/log 2>&1
+  RC=$?
+else
+  cp "$DEMO" $D/tests/demo.rs
+  cd $D && CARGO_TARGET_DIR=$D/target cargo test --offline --test demo > $D/log 2>&1
+  RC=$?
+fi
 tail -15 $D/log
 cd / && rm -rf $D
 exit $RC
